@@ -161,6 +161,8 @@ func runC07(c *Ctx) {
 	checkClassifierAgreement(c)
 	checkFeePlumbing(c)
 	checkInputSourceLifetime(c, "C07-R4")
+	checkFixedSelectionSourceIsStateless(c, "C07-R4")
+	checkOutputSizesFromSerializer(c, "C07-R2")
 }
 
 // countsChange: v is (a conversion of) a phi merging len(txOuts) and len(txOuts)+1.
@@ -1065,4 +1067,43 @@ func lookupOf(v ssa.Value) *ssa.Lookup {
 	}
 	lk, _ := v.(*ssa.Lookup)
 	return lk
+}
+
+// checkOutputSizesFromSerializer: the size estimate of the requested outputs is the sum of each output's real
+// serialized size: per output the summand comes from wire.TxOut.SerializeSize (or spells out its three parts, including
+// the compact-size prefix of the script through VarIntSerializeSize). A constant one-byte prefix under-estimates every
+// output whose script is 253 bytes or longer, and the fee falls below the requested rate.
+func checkOutputSizesFromSerializer(c *Ctx, rule string) {
+	p := c.P
+	fn := pkgFn(c, rule, "wallet/txsizes", "SumOutputSerializeSizes")
+	if fn == nil {
+		return
+	}
+	n := 0
+	for _, part := range p.regionTop(fn) {
+		for _, l := range loopsOf(part) {
+			if l.Kind == "for" {
+				continue
+			}
+			n++
+			ok := l.containsInstr(func(ins ssa.Instruction) bool {
+				call, isCall := ins.(*ssa.Call)
+				if !isCall {
+					return false
+				}
+				nm := calleeShort(&call.Call)
+				return nm == "SerializeSize" || nm == "VarIntSerializeSize"
+			})
+			if ok {
+				bad := l.MustPassPerIteration(p, func(ins ssa.Instruction) bool {
+					call, isCall := ins.(*ssa.Call)
+					return isCall && (calleeShort(&call.Call) == "SerializeSize" || calleeShort(&call.Call) == "VarIntSerializeSize")
+				})
+				ok = bad == ""
+			}
+			c.Check(rule, "output-size-from-serializer", l.Header.Instrs[0].Pos(), ok,
+				"SumOutputSerializeSizes does not take each output's size from its serializer (TxOut.SerializeSize, or value + VarIntSerializeSize(len(script)) + script): outputs with scripts of 253 bytes or more are under-estimated and the fee is below the requested rate")
+		}
+	}
+	c.Floor(rule, "output loops in SumOutputSerializeSizes", n, 1)
 }
